@@ -216,40 +216,64 @@ end
 
 def etreeIterPaths (e : Node) : List (List Nat × List Step) := iterPaths e [] []
 
-/-! ### rendering (the string level; tied by the correspondence check only) -/
+/-! ### rendering: the text of the path, character by character (f-strings of the `path`
+properties).  `EPV.C14.parse_render_*` prove that this text reads back to the steps, so it is
+injective; the equality with the real strings is the correspondence check. -/
 
-def fnNamespace : String := "http://www.w3.org/2005/xpath-functions"
+/-- decimal digits of a natural number (`str(int)`), most significant first -/
+def digitChar (d : Nat) : Char := Char.ofNat (48 + d)
 
-/-- `_EMPTY_NAME_PATH` -/
-def emptyNamePath : String := "*[Q{" ++ fnNamespace ++ "}local-name()=\"\"]"
+def natDecAux : Nat → Nat → List Char → List Char
+  | 0, _, acc => acc
+  | f + 1, n, acc =>
+    if n < 10 then digitChar n :: acc else natDecAux f (n / 10) (digitChar (n % 10) :: acc)
 
-/-- `ElementNode.uri_qualified_name`: always `Q{ns}local` -/
-def renderElemName (n : Name) : String := "Q{" ++ n.ns ++ "}" ++ n.loc
+def natDec (n : Nat) : List Char := natDecAux (n + 1) n []
 
-/-- `AttributeNode.uri_qualified_name`: `Q{ns}local` only for a namespaced attribute -/
-def renderAttrName (n : Name) : String :=
-  if n.ns = "" then n.loc else "Q{" ++ n.ns ++ "}" ++ n.loc
+/-- `http://www.w3.org/2005/xpath-functions` -/
+def fnNamespaceC : List Char := ['h', 't', 't', 'p', ':', '/', '/', 'w', 'w', 'w', '.', 'w', '3', '.', 'o', 'r', 'g', '/', '2', '0', '0', '5', '/', 'x', 'p', 'a', 't', 'h', '-', 'f', 'u', 'n', 'c', 't', 'i', 'o', 'n', 's']
+def litText : List Char := ['t', 'e', 'x', 't', '(', ')', '[']
+def litComment : List Char := ['c', 'o', 'm', 'm', 'e', 'n', 't', '(', ')', '[']
+def litPI : List Char := ['p', 'r', 'o', 'c', 'e', 's', 's', 'i', 'n', 'g', '-', 'i', 'n', 's', 't', 'r', 'u', 'c', 't', 'i', 'o', 'n', '(']
+def litNs : List Char := ['n', 'a', 'm', 'e', 's', 'p', 'a', 'c', 'e', ':', ':']
+/-- `_EMPTY_NAME_PATH` = `*[Q{http://www.w3.org/2005/xpath-functions}local-name()=""]` -/
+def emptyNamePathC : List Char := ['*', '[', 'Q', '{'] ++ fnNamespaceC ++ ['}', 'l', 'o', 'c', 'a', 'l', '-', 'n', 'a', 'm', 'e', '(', ')', '=', '"', '"', ']']
+/-- `Q{http://www.w3.org/2005/xpath-functions}root()` -/
+def litRoot : List Char := ['Q', '{'] ++ fnNamespaceC ++ ['}', 'r', 'o', 'o', 't', '(', ')']
 
-def renderStep : Step → String
-  | .child nm p => renderElemName nm ++ "[" ++ toString p ++ "]"
-  | .text p => "text()[" ++ toString p ++ "]"
-  | .comment p => "comment()[" ++ toString p ++ "]"
-  | .pi t p => "processing-instruction(" ++ t ++ ")[" ++ toString p ++ "]"
-  | .attr nm => "@" ++ renderAttrName nm
-  | .ns p => "namespace::" ++ (if p = "" then emptyNamePath else p)
+/-- one step: `Q{ns}local[n]` (`ElementNode.uri_qualified_name` always braced), `text()[n]`,
+`comment()[n]`, `processing-instruction(t)[n]`, `@local` / `@Q{ns}local`
+(`AttributeNode.uri_qualified_name` braced only when namespaced), `namespace::prefix` /
+`namespace::*[Q{fn}local-name()=""]` (`name_path` of a prefix-less namespace node) -/
+def renderStepC : Step → List Char
+  | .child nm p => 'Q' :: '{' :: (nm.ns.toList ++ '}' :: (nm.loc.toList ++ '[' :: (natDec p ++ [']'])))
+  | .text p => litText ++ (natDec p ++ [']'])
+  | .comment p => litComment ++ (natDec p ++ [']'])
+  | .pi t p => litPI ++ (t.toList ++ ')' :: '[' :: (natDec p ++ [']']))
+  | .attr nm =>
+    if nm.ns = "" then '@' :: nm.loc.toList
+    else '@' :: 'Q' :: '{' :: (nm.ns.toList ++ '}' :: nm.loc.toList)
+  | .ns p => litNs ++ (if p = "" then emptyNamePathC else p.toList)
+
+/-- `/step/step…` -/
+def renderSteps : List Step → List Char
+  | [] => []
+  | s :: ss => '/' :: (renderStepC s ++ renderSteps ss)
 
 /-- `node.path`: `/` for the document node, else `/step/step…` -/
-def renderAbs (steps : List Step) : String :=
-  if steps.isEmpty then "/" else String.join (steps.map fun s => "/" ++ renderStep s)
-
-/-- what `etree_iter_paths(root)` prints (default `path='.'`) -/
-def renderRel (steps : List Step) : String :=
-  "." ++ String.join (steps.map fun s => "/" ++ renderStep s)
+def renderAbsC (steps : List Step) : List Char :=
+  match steps with
+  | [] => ['/']
+  | _ => renderSteps steps
 
 /-- `fn:path` on a tree whose root is not a document node:
 `Q{http://www.w3.org/2005/xpath-functions}root()` + `item.path[len(root_node.path):]` -/
-def renderFnPath (steps : List Step) : String :=
-  "Q{" ++ fnNamespace ++ "}root()" ++ String.join (steps.map fun s => "/" ++ renderStep s)
+def renderFnPathC (steps : List Step) : List Char := litRoot ++ renderSteps steps
+
+def renderAbs (steps : List Step) : String := String.ofList (renderAbsC steps)
+def renderFnPath (steps : List Step) : String := String.ofList (renderFnPathC steps)
+/-- what `etree_iter_paths(root)` prints (default `path='.'`) -/
+def renderRel (steps : List Step) : String := String.ofList ('.' :: renderSteps steps)
 
 /-- `path` of a parent-less node (`self.parent is None` branches) -/
 def orphanSteps : Node → List Step
